@@ -170,10 +170,26 @@ def connector_args(s):
     from unittest import mock
     from vncdotool import api, client as vclient
     out = {}
+    eps = []          # what finally reaches an endpoint: (kind, host[, port])
+
+    class Ep:
+        def __init__(self, kind, *a):
+            eps.append((kind,) + tuple(a[1:]))
+
+        def connect(self, f):
+            from twisted.internet.defer import Deferred
+            return Deferred()
+    real_fc = vclient.factory_connect
+
+    def recording_fc(f, h, p_, fam, rec_):
+        rec_.append((h, p_, fam))
+        with mock.patch.object(vclient, "HostnameEndpoint", lambda *a: Ep("hostname", *a)), \
+                mock.patch.object(vclient, "UNIXClientEndpoint", lambda *a: Ep("unix", *a)):
+            real_fc(f, h, p_, fam)          # the real glue: family -> endpoint, host and port handed on
     # vncdo -s S key a
     rec = []
     with mock.patch.object(command, "reactor", _Rx()), mock.patch.object(command, "setup_logging", lambda o: None), \
-            mock.patch.object(command, "factory_connect", lambda f, h, p_, fam: rec.append((h, p_, fam))), \
+            mock.patch.object(command, "factory_connect", lambda f, h, p_, fam: recording_fc(f, h, p_, fam, rec)), \
             mock.patch.object(sys, "argv", ["vncdo", "-s", s, "key", "a"]), mock.patch.object(sys, "stderr", open(os.devnull, "w")):
         try:
             command.vncdo()
@@ -194,6 +210,7 @@ def connector_args(s):
             if len(calls) == 1:
                 _f, h, p_, fam = calls[0][1]
                 out["api"] = ("ok", FAM.get(fam, str(fam)), h, p_)
+                recording_fc(_f, h, p_, fam, [])
             else:
                 out["api"] = ("err", "connects=%d" % len(calls))
         except ValueError:
@@ -214,6 +231,7 @@ def connector_args(s):
             out["vnclog"] = ("err", "exit") if not rec else (("ok", FAM.get(rec[0][2], str(rec[0][2])), rec[0][0], rec[0][1]) if len(rec) == 1 else ("err", "proxies=%d" % len(rec)))
         except Exception as e:  # noqa
             out["vnclog"] = ("err", exc_class(e))
+    out["endpoints"] = list(eps)
     return out
 
 
@@ -276,6 +294,10 @@ def run(ctx):
                 elif os.path.exists(path):
                     os.remove(path)
                 for s_ in (path, path + ":2"):
+                    via_api = connector_args(s_).get("api")
+                    if via_api != oracle(s_):
+                        ctx.violate("addr-grammar-reparse", {"input": {"string": s_, "step": step, "through": "api.connect"}, "impl": list(via_api or ()), "spec": list(oracle(s_)),
+                                                             "how": "api.connect on the same string before and after the path comes into existence / disappears"})
                     got, want = impl(s_), oracle(s_)
                     seq.append((step, s_, got))
                     ctx.count("reparse_cases")
@@ -284,7 +306,8 @@ def run(ctx):
                                                              "how": "parse_server on the same string before and after the path comes into existence / disappears"})
         # the address reaches the connector unchanged: vncdo, api.connect and vnclog
         picked = [s_ for s_ in cases if oracle(s_)[0] == "ok"][:ctx.n(150, 1500)] + [s_ for s_ in cases if oracle(s_)[0] == "err"][:ctx.n(40, 400)]
-        picked += [os.path.join(tmp, "sock"), os.path.join(tmp, "sock") + ":1", os.path.join(tmp, "sock") + "::5", "[::1]:2", "10.0.0.1::80", "example.org"]
+        picked += [os.path.join(tmp, "sock"), os.path.join(tmp, "sock") + ":1", os.path.join(tmp, "sock") + "::5", "[::1]:2", "10.0.0.1::80", "example.org",
+                   "[fe80::1%eth0]::5901", "[fe80::1%1]", "[FE80::1%lo]:3", "[::ffff:10.0.0.1]:1"]
         for s_ in picked:
             if s_.startswith("-") or "\x00" in s_:
                 continue
@@ -292,6 +315,13 @@ def run(ctx):
             got = connector_args(s_)
             ctx.case(None, key=("connector", s_))
             ctx.count("connector_cases")
+            eps_ = got.pop("endpoints", [])
+            if want[0] == "ok":
+                want_ep = ("unix", want[2]) if want[1] == "unix" else ("hostname", want[2], want[3])
+                n_ok = sum(1 for who in ("vncdo", "api") if got.get(who, ("err",))[0] == "ok")
+                if any(e != want_ep for e in eps_) or len(eps_) != n_ok:
+                    ctx.violate("addr-reaches-connector", {"input": s_, "impl": {"endpoints": [list(e) for e in eps_]}, "spec": list(want_ep),
+                                                           "how": "the real client.factory_connect with recording endpoint classes, reached through vncdo and api.connect"})
             for who, g in got.items():
                 if (g[0] == "ok") != (want[0] == "ok") or (g[0] == "ok" and g != want):
                     ctx.violate("addr-reaches-connector", {"input": s_, "impl": {who: list(g)}, "spec": list(want),
